@@ -60,6 +60,8 @@ pub enum Op {
     /// the small roots as elements of a typed `Vec<Value>` / as struct fields
     SmallRootsInVec,
     SmallRootsInStruct,
+    /// number roots in raw-number mode (Vec<Value> elements and stream documents)
+    NumberRootsRaw,
     Drop(usize),
     CloneOnOtherThread(usize),
     DropOnOtherThread(usize),
@@ -71,7 +73,7 @@ const MAX_LIVE: usize = 5;
 
 pub fn ops() -> Vec<Op> {
     use Op::*;
-    let mut v = vec![Parse(0), Parse(1), DeserializeMany, DeserializeWithError, StreamMany, StreamWithError, StructFields, DeserializeManyRaw, StreamManyRaw, StructFieldsRaw, ParseRejected(0), ParseRejected(1), ParseRejected(2), ParseRejected(3), ParseSmall(0), ParseSmall(1), ParseSmall(2), ParseSmall(3), ParseSmall(4), SmallRootsInVec, SmallRootsInStruct];
+    let mut v = vec![Parse(0), Parse(1), DeserializeMany, DeserializeWithError, StreamMany, StreamWithError, StructFields, DeserializeManyRaw, StreamManyRaw, StructFieldsRaw, ParseRejected(0), ParseRejected(1), ParseRejected(2), ParseRejected(3), ParseSmall(0), ParseSmall(1), ParseSmall(2), ParseSmall(3), ParseSmall(4), SmallRootsInVec, SmallRootsInStruct, NumberRootsRaw];
     for i in 0..2 {
         v.push(CloneSub(i, Sel::Root));
         v.push(CloneSub(i, Sel::A));
@@ -338,6 +340,37 @@ pub fn apply(op: &Op, live: &mut Vec<Value>, model: &mut Vec<R>) -> Result<(), S
                     live.push(v);
                     model.push(fence::unarmed(|| model_of(SMALL_ROOTS[k])));
                 }
+            }
+        }
+        Op::NumberRootsRaw => {
+            if live.len() + 3 <= MAX_LIVE {
+                let text = "[7,-0.5,12.50]".to_string();
+                let mut de = Deserializer::from_str(&text).use_rawnumber();
+                let vs: Vec<Value> = de.deserialize().map_err(|e| e.to_string())?;
+                drop(de);
+                let text2 = "1 -0.5 7 99".to_string();
+                let mut st = Deserializer::from_str(&text2).use_rawnumber().into_stream::<Value>();
+                let s1 = st.next().ok_or("stream ended")?.map_err(|e| e.to_string())?;
+                let s2 = st.next().ok_or("stream ended")?.map_err(|e| e.to_string())?;
+                let s3 = st.next().ok_or("stream ended")?.map_err(|e| e.to_string())?;
+                let _ = st.next();
+                drop(st);
+                drop(text);
+                drop(text2);
+                let show = |v: &Value| v.as_raw_number().map(|r| r.as_str().to_string()).unwrap_or_else(|| format!("not raw: {v}"));
+                let got = [show(&vs[0]), show(&vs[1]), show(&vs[2]), show(&s1), show(&s2), show(&s3)];
+                if got != ["7", "-0.5", "12.50", "1", "-0.5", "7"] {
+                    return Err(format!("raw number roots read {:?}", got));
+                }
+                drop((s1, s3));
+                let mut it = vs.into_iter();
+                live.push(it.next().unwrap());
+                live.push(s2);
+                live.push(it.next().unwrap());
+                drop(it);
+                model.push(fence::unarmed(|| model_of("7")));
+                model.push(fence::unarmed(|| model_of("-0.5")));
+                model.push(fence::unarmed(|| model_of("-0.5")));
             }
         }
         Op::SmallRootsInStruct => {
